@@ -111,3 +111,11 @@ BUILT['C13'] = (
     "Twist3.ad/Ad on rigid motions with non-zero translation and non-coordinate rotation axes (so a transposed block or sign "
     "slip cannot cancel)",
     NOTE, "DESIGN.md 4 C13")
+BUILT['C14'] = (
+    "post-condition monitors on the normalisation functions (member, idempotent, direction / translation / plane "
+    "preservation against longdouble references) and on angdiff (range + congruence), class methods judged at their boundary",
+    "trnorm / pose.norm on members perturbed by 1e-15..1e-2 (member to 1e-12, idempotent, translation bit-identical, approach "
+    "axis direction and o in span{o,a} preserved, valid input unchanged); unit / unitvec / Quaternion.unit / UnitQuaternion(v) "
+    "on norms 1e-6..1e6 (result equals the longdouble quotient, no sign change); unittwist family incl. rotational parts at "
+    "0, 5 eps, 20 eps, 1e-12; angdiff on scalars and arrays within +-1e3 incl. exact multiples of pi",
+    NOTE, "DESIGN.md 4 C14")
